@@ -111,7 +111,7 @@ def gated_run(inputs, schedule, base):
             if e["ev"] in ("done", "crashed"):
                 continue        # the process took fewer shared-directory steps than the protocol has: the judge will say so
             rec = {"p": p, "ev": e["ev"], "name": e["name"], "listing": sorted(os.listdir(tmpdir)),
-                   "content": file_hash(os.path.join(tmpdir, e["name"])) if e["ev"] == "rd" else "", "outok": True}
+                   "content": file_hash(os.path.join(tmpdir, e.get("path", e["name"]))) if e["ev"] == "rd" else "", "outok": True}
             events.append(rec)
             k.release()
             pending[p - 1] = k.next_event()          # the step has been taken when the next report arrives
@@ -122,7 +122,7 @@ def gated_run(inputs, schedule, base):
             # a process with steps left (e.g. a second temp file) is released to the end, its extra steps are recorded
             while e["ev"] not in ("done", "crashed"):
                 events.append({"p": i + 1, "ev": e["ev"], "name": e["name"], "listing": sorted(os.listdir(tmpdir)),
-                               "content": file_hash(os.path.join(tmpdir, e["name"])) if e["ev"] == "rd" else "", "outok": True})
+                               "content": file_hash(os.path.join(tmpdir, e.get("path", e["name"]))) if e["ev"] == "rd" else "", "outok": True})
                 k.release()
                 e = k.next_event()
             events.append({"p": i + 1, "ev": e["ev"], "name": "", "listing": sorted(os.listdir(tmpdir)), "content": "", "outok": True})
@@ -158,6 +158,11 @@ def make_inputs(ctx, base):
     ins["gff"] = gff
     ins["gtf"] = gtf
     ins["gtf_cds"] = cds
+    import gzip
+    for name, src in (("gff_gz", gff), ("gtf_gz", gtf)):       # compressed inputs: whatever the reader needs to inflate them is its own to clean up
+        with open(src, "rb") as fi, gzip.open(src + ".gz", "wb") as fo:
+            fo.write(fi.read())
+        ins[name] = src + ".gz"
     for name, fn in (("gff_real", "FBgn0031208.gff"), ("gtf_real", "FBgn0031208.gtf")):
         p = os.path.join(data, fn)
         if os.path.exists(p):
@@ -297,7 +302,7 @@ def run(ctx):
     for k, v in solo.items():
         if v["final"] or v["rc"] != 0:
             ctx.violation({"input": k}, "solitary_run_leaves_files", {"listing": v["final"], "rc": v["rc"]})
-    kinds_menu = [("gff", "gtf"), ("gtf", "gff"), ("gtf", "gtf"), ("gff", "gff"), ("gtf_cds", "gtf"), ("gff", "gtf_cds")]
+    kinds_menu = [("gff", "gtf"), ("gtf", "gff"), ("gtf", "gtf"), ("gff", "gff"), ("gtf_cds", "gtf"), ("gff", "gtf_cds"), ("gff_gz", "gtf_gz"), ("gtf_gz", "gff")]
     if "gff_real" in inputs:
         kinds_menu += [("gff_real", "gtf_real"), ("gtf_real", "gtf")]
     work = []
@@ -352,8 +357,13 @@ def run(ctx):
 
 def replay(ctx, rec):
     c = rec["case"]
+    if "input" in c and "schedule" not in c:       # a solitary run that left files behind / failed
+        base = ctx.path("c20s")
+        os.makedirs(base)
+        v = solitary({c["input"]: make_inputs(ctx, base)[c["input"]]}, base)[c["input"]]
+        return bool(v["final"]) or v["rc"] != 0
     if "schedule" not in c:
-        return True
+        raise core.CannotReplay("no executable case in this replay file")
     base = ctx.path("c20r")
     os.makedirs(base)
     inputs = make_inputs(ctx, base)
